@@ -418,10 +418,14 @@ def calculate_1d_frequencies(
     validate_bins: bool = True,
     already_sorted: bool = False,
     dtype: Optional[DTypeLike] = None,
+    keep_missed: bool = True,
 ) -> Tuple[
     Optional[np.ndarray], Optional[np.ndarray], float, float, Optional[Statistics]
 ]:
     """Get frequencies and bin errors from the data.
+
+    With keep_missed=False the values outside the bins leave no trace: the statistics
+    are those of the values that are in a bin.
 
     Parameters
     ----------
@@ -518,6 +522,7 @@ def calculate_1d_frequencies(
         # The squares (or their sums) would wrap around in 64 bits: python integers
         squared_weights = weights_array.astype(object)
     booked = 0  # values that are in a bin, below the first one or above the last one
+    in_bin = np.zeros(data_array.size, dtype=bool)
     for xbin, bin in enumerate(bins):
         start = np.searchsorted(data_array, bin[0], side="left")
         stop = np.searchsorted(data_array, bin[1], side="left")
@@ -535,6 +540,7 @@ def calculate_1d_frequencies(
         frequencies[xbin] = weights_array[start:stop].sum()
         errors2[xbin] = (squared_weights[start:stop] ** 2).sum()
         booked += stop - start
+        in_bin[start:stop] = True
 
     # Underflow and overflow are not the whole of what was missed once a value fell into
     # a gap of unconsecutive bins (the rule of `fill`).
@@ -543,6 +549,8 @@ def calculate_1d_frequencies(
         overflow = np.nan
 
     # Statistics
+    if not keep_missed:
+        data_array, weights_array = data_array[in_bin], weights_array[in_bin]
     if not data_array.size:
         stats = Statistics()
     else:
